@@ -1,0 +1,24 @@
+//go:build verif
+
+package subscribe
+
+// VerifSnapshot returns, per key, the notifiers currently subscribed (in list order).
+// The harness uses it to wait until the process goroutine has applied an event.
+func (s *subPub) VerifSnapshot() map[string][]INotifier {
+	m := map[string][]INotifier{}
+	s.keyToNotifier.Range(func(k, v interface{}) bool {
+		slice := v.([]*subInfo)
+		l := make([]INotifier, 0, len(slice))
+		for _, si := range slice {
+			l = append(l, si.notifier)
+		}
+		m[k.(string)] = l
+		return true
+	})
+	return m
+}
+
+// VerifPending returns the number of subscribe / unsubscribe events not yet received by process.
+func (s *subPub) VerifPending() (int, int) {
+	return len(s.subInfoChan), len(s.unsubInfoChan)
+}
